@@ -234,3 +234,21 @@ package htlcswitch
 //@        arg(4) == packet.incomingTimeout && arg(5) == packet.outgoingTimeout && arg(6) == packet.inboundFee &&
 //@        arg(7) == ret(LoadUint32)
 //@   site call append nth 1: assert arg(0) == destinations && ret(EligibleToForward) && ret(CheckHtlcForward) == nil
+//@
+//@ func (m *memoryMailBox) FailAdd
+//@   props C08
+//@   site call forwardPackets: assert ret(AckPacket)
+//@   site store htlcPacket.sourceRef: assert value == pkt.sourceRef
+//@   site store htlcPacket.incomingHTLCID: assert value == pkt.incomingHTLCID
+//@   site store htlcPacket.incomingChanID: assert true
+//@   site store htlcPacket.circuit: assert value == pkt.circuit
+//@   site store htlcPacket.hasSource: assert value
+//@
+//@ func (l *channelLink) resolveFwdPkg
+//@   props C08
+//@   requires fwdPkg != nil
+//@   site call processRemoteSettleFails: assert arg(1) == fwdPkg && !ret(IsFull, 0)
+//@   site call processRemoteAdds: assert arg(1) == fwdPkg && !ret(IsFull, 1)
+//@   site call IsFull nth 0: assert arg(0) == fwdPkg.SettleFailFilter
+//@   site call IsFull nth 1: assert arg(0) == fwdPkg.AckFilter
+//@   ensures result == nil && !ret(IsFull, 0) ==> called(processRemoteSettleFails)
